@@ -7,7 +7,10 @@ MANIFEST = {
     "modules": ["Logging", "Exec", "Trace_Ser", "Trace_Same"],
     "text": "Log: Logging.tla places mahf's own Logger in configurations run by the reference interpreter (Exec.tla) with "
             "a caller-supplied rule set (always / never / every-2 / scripted triggers; K0 / U / iteration / missing sources; "
-            "repeated names). TLC enumerates all programs up to the bound x scripts x 13 rule sets (incl. shadowed stateful triggers) and checks "
+            "repeated names), given by the LogConfig calls that make it (with / with_auto / with_many / with_common, "
+            "expanded by Expand: the shorthand stands for the number of evaluations and the progress of the iterations). "
+            "TLC enumerates all programs up to the bound x scripts x 27 rule sets (incl. shadowed stateful triggers, late "
+            "triggers that bring new names in later steps, every convenience) and checks "
             "OneStepPerFiringExecution, StepsExact (one entry per fired rule, value at that moment, null for a missing "
             "source, iteration first) and RuleOrderKept against a ghost record of logger executions; every enumerated case "
             "and seeded random ones run on the real code with a real LogConfig, and TLC validates the resulting log three "
@@ -16,9 +19,16 @@ MANIFEST = {
             "serialisation (skeleton = program) and that a clone serialises identically; for all 21 templates over the "
             "parameter grid Trace_Ser.tla requires serialisability, clone identity, and 'same serialisation iff same "
             "template and parameter values' (incl. configurations differing only in an identifier type parameter, shipped "
-            "and user-defined with colliding short names). Experiment runner: Trace_Same.tla requires configuration.ron to "
+            "and user-defined with colliding short names; every parameter of every template and of every single-component "
+            "pseudo-template changed on its own; every condition over every parameter -- lens and equality checker "
+            "included -- in every place a condition can stand) and, for configurations assembled through every entry point "
+            "of the builder API from a builder term (build, build_component, Block::new, while_/if_/if_else_/scope_, the "
+            "list and single-component constructors of Loop/Branch/Scope, do_many_, do_if_some_, Configuration::new/from/"
+            "into_builder/into_inner over lists of 0/1/2 items, nested), 'same serialisation iff same structure Str(term)', "
+            "the structure being computed by the specification. Experiment runner: Trace_Same.tla requires configuration.ron to "
             "equal the direct serialisation of the configuration that was run (also when the folder is reused) and each "
-            "exported run log to decode to the log of the same run made directly.",
+            "exported run log to decode to the log of the same run made stand-alone (whose log rules are spelled out "
+            "where the runner's set-up uses the with_common shorthand).",
     "technique": "TLA+ spec + TLC exhaustive case enumeration + TLC trace validation of real logs / exports / serialisations",
     "design_ref": "DESIGN.md §6 C15",
     "note": "logger placements without a visible pass counter are excluded (the caller's state holds one); differences only in "
@@ -34,7 +44,7 @@ def cfg_mc(n, l, export):
 
 
 RULE = ("cases = (program with Logger placements, condition script, rule set) exported from TLC (all programs up to the "
-        "bound x scripts x 11 rule sets) + seeded random ones, each run on the real code with a real LogConfig; plus the "
+        "bound x scripts x 27 rule sets, one in three in the quick tier) + seeded random ones, each run on the real code with a real LogConfig; plus the "
         "configuration-export cases; non-trivial = the run produced a non-empty log or ended in error; distinct = distinct cases")
 
 DESCRIBE = dict(c03.DESCRIBE)
@@ -51,7 +61,7 @@ def run_logging(ctx):
     ctx.harness("exec", "replay", **{"in": cases, "out": tr})
     ctx.validate("Trace_Exec", c03.CFG_TRACE, tr, "enum-logging", DESCRIBE, {"driver": "exec"}, timeout=3000)
     tr = os.path.join(ctx.work, "random-logging.trace.ndjson")
-    ctx.harness("exec", "random", out=tr, seed=ctx.seed, n=200 if q else 10000, stmts=20, logging=1)
+    ctx.harness("exec", "random", out=tr, seed=ctx.seed, n=400 if q else 10000, stmts=20, logging=1)
     ctx.validate("Trace_Exec", c03.CFG_TRACE, tr, "random-logging", DESCRIBE, {"driver": "exec"}, timeout=3000)
 
 
